@@ -227,6 +227,8 @@ def build():
                loops={1: Loop(inv=["out == kidsf_over(self, done1)", "seq1 == lfields(self)"]),
                       2: Loop(inv=["out == out_at2 + item_positions(done2, f)", "seq2 == fv_items(objects)", "all_items_are_nodes(seq2)"])},
                note="the same nodes with their field and, inside a list / tuple, their index (None for a single child)"))
+    A(Contract(f"{LM}:AwareASTNode.children", params={"self": "Ref"}, returns="Seq[Ref]", props=P, requires=["children_well_typed(self)"],
+               ensures=["result == lkids_def(self)"], note="property -- the child nodes as a list, in the order get_child_nodes yields them"))
     world.trusted_notes.append("dataclasses.fields(n) == lfields(n); getattr(n, f.name) == fval(n, f); a field value is exactly one of None / node / list-or-tuple / other; "
                                "`name in get_child_fields()` is the static predicate declared_child")
     return world, lib, reg, lemmas(lib, nv, dict(any_node=any_node, all_node=all_node, nodes_of=nodes_of, pos_of=pos_of, cpos_nodes=cpos_nodes, is_node=is_node, node_of=node_of,
